@@ -106,6 +106,11 @@ def run(ctx):
             ev = rng.choice(['MAR', 'HM', '50K', '100K', '20KW', '10K', '5M', '10M', '30K', '24HR'])
             t = '%d:%02d:%02d.%s' % (rng.randint(1, 11), rng.randint(0, 59), rng.randint(0, 59), ''.join(rng.choice('0123456789') for _ in range(rng.choice([1, 2, 2, 3]))))
             yield ev, t, 'all', rng.choice([1, 2, 2, 3, None])
+        # multi-event totals around the ceiling, for every multi-event code (spec-side list) in three spellings
+        for ev in ['BI', 'TRI', 'QUAD', 'PEN', 'HEX', 'HEP', 'OCT', 'ENN', 'DEC', 'HEN', 'DOD', 'ICO', 'PENI', 'PENWT']:
+            for sp in (ev, ev.lower(), ev.title()):
+                for t in ('9999', '10000', '10001', '14571', '19999', '20000', '0019999', ' 10000 ', '09999', '99999', '1e4', '9999.0'):
+                    yield sp, t, 'all', None
         # slow but admissible track results of an hour and more whose decimals are all zero (the printed form drops them): h:mm:ss.00
         for ev in ['3000', '5000', '10000', '3000SC', '2MILE', '3000W', '5K', '10K', '3000m', '1500', '800']:
             for (h_, m_, s_) in [(1, 0, 0), (1, 2, 3), (1, 39, 59), (1, 40, 0), (1, 20, 30), (2, 0, 0), (1, 0, 1), (2, 46, 39)]:
